@@ -459,7 +459,8 @@ def run_check(mod, tier):
     # 3. shrink + report new signatures
     outdir = os.path.join(os.environ.get("VERIF_SCRATCH") or VERIF, "out", mod.ID)
     lines = []
-    max_evals = int(budget.get("shrink_evals", 200 if tier == "quick" else 3000))
+    # (VERIF_SHRINK_EVALS=n: shrink budget override - the seeded-change runs only need the verdict)
+    max_evals = int(os.environ.get("VERIF_SHRINK_EVALS") or budget.get("shrink_evals", 200 if tier == "quick" else 3000))
     max_report = int(budget.get("max_report", 25))
     for n_sig, sig in enumerate(sorted(new_viol)):
         v = new_viol[sig]
